@@ -42,7 +42,7 @@ def part(chk, tier, label, n_quick=500, n_thorough=8000, seed=11):
     n = n_quick if tier == 'quick' else n_thorough
     pool = [common.cps(v) for v in irproj.VALUE_POOL]
     lines = []
-    texts = [(t, None) for t in HARD]
+    texts = [(t, None, None) for t in HARD]
     for k in range(n):
         ast = gen.rand_list(rng, depth=rng.choice([0, 1, 2, 2, 3]))
         for cx in ast:          # constructs of the Ir grammar that the core generator leaves out: namespaces, the type attribute, &, :hover, odd names
@@ -54,17 +54,33 @@ def part(chk, tier, label, n_quick=500, n_thorough=8000, seed=11):
                     comp.append(ex)
                 if rng.random() < 0.15 and comp and comp[0]['k'] == 'type':
                     comp[0]['ns'] = rng.choice([{'t': 'any'}, {'t': 'none'}, {'t': 'pfx', 'p': common.cps('ns')}])
+        cm = None
+        if rng.random() < 0.25:
+            # custom aliases (acyclic: the second may use the first); names are matched case-insensitively after unescaping
+            d1 = gen.rand_list(rng, depth=1)
+            d2 = gen.rand_list(rng, depth=1)
+            d2[0]['cs'][-1].append({'k': 'custom', 'name': common.cps('--al')})
+            selmod.SPELL = random.Random(rng.getrandbits(32))
+            try:
+                cm = {':--al': selmod.selector_list(d1), ':--Be\\74 a': selmod.selector_list(d2)}
+            finally:
+                selmod.SPELL = None
+            for cx in ast:
+                if rng.random() < 0.7:
+                    cx['cs'][rng.randrange(len(cx['cs']))].append({'k': 'custom', 'name': common.cps(rng.choice(['--al', '--beta', '--AL', '--BETA']))})
+            if not any(sm['k'] == 'custom' for cx in ast for comp in cx['cs'] for sm in comp):
+                ast[0]['cs'][-1].append({'k': 'custom', 'name': common.cps('--beta')})
         selmod.SPELL = None
         canon = selmod.selector_list(ast)
         selmod.SPELL = random.Random(rng.getrandbits(32))
         try:
-            texts.append((selmod.selector_list(ast), canon))
+            texts.append((selmod.selector_list(ast), canon, cm))
         finally:
             selmod.SPELL = None
     skipped = 0
-    for k, (t, canon) in enumerate(texts):
+    for k, (t, canon, cm) in enumerate(texts):
         try:
-            obj = common.guard(lambda: sv.compile(t, namespaces=NS), 20)
+            obj = common.guard(lambda: sv.compile(t, namespaces=NS, custom=cm), 20)
             ir = irproj.proj_list(ct, obj.selectors)
         except irproj.OutOfModel:
             skipped += 1
@@ -74,7 +90,12 @@ def part(chk, tier, label, n_quick=500, n_thorough=8000, seed=11):
                 chk.violation('%s|compile|%r' % (label, t), 'compile(%r) - a respelling of the valid %r - raised %s' % (t, canon, type(e).__name__),
                               {'cfg': label, 'selector': t, 'canonical': canon, 'group': 'respelling raises'})
             continue
-        lines.append(json.dumps({'id': 'p%d' % k, 'text': common.cps(t), 'ir': ir, 'pool': pool, 'css': t, 'res': 'IR', 'canonical': canon or ''}))
+        ev = {'id': 'p%d' % k, 'text': common.cps(t), 'ir': ir, 'pool': pool, 'css': t, 'res': 'IR', 'canonical': canon or ''}
+        if cm is not None:
+            from soupsieve.css_parser import css_unescape
+            ev['custom'] = [{'name': common.cps(css_unescape(n).lower()), 'def': common.cps(dd)} for n, dd in cm.items()]
+            ev['css'] = '%s  with custom=%r' % (t, cm)
+        lines.append(json.dumps(ev))
     rej = trace.validate(chk, lines, 'Trace_Parse', label, batch=150)
     chk.notes[label] = {'texts': len(lines), 'outside_Ir_grammar_skipped': skipped, 'rejected': len(rej)}
     if lines:
